@@ -1,7 +1,7 @@
 """C13  sequence strings are normalised or rejected, never silently altered."""
 import os
 
-from .. import common, tlc, traces, inputs
+from .. import common, tlc, traces, inputs, objmodel
 
 WS = ['\t', '\n', '\r', '\x0b', '\x0c', '\x1c', '\x1f', '\x85', '\xa0', ' ', '　', ' ']
 PUNCT = list("-_.,;:!?/\\|()[]{}<>@#$%^&+=~`'\"")
@@ -47,7 +47,7 @@ def construct_event(ctx, lc, text, check_battery=False):
             else:
                 a, b = inputs.battery(o), inputs.battery(ref[1])
                 for q in a:
-                    if repr(a[q]) != repr(b[q]):
+                    if not objmodel.same_reply(objmodel.digest(a[q]), objmodel.digest(b[q])):
                         ctx.violation("analysis-differs-from-normalised-word", {"text": text, "normalised": s[1], "query": q},
                                       expected=b[q], actual=a[q])
                         break
